@@ -144,6 +144,7 @@ def main(argv=None):
     ap.add_argument("--only", default=None, help="comma-separated harness names")
     ap.add_argument("--jobs", type=int, default=int(os.environ.get("VERIF_JOBS", "0")) or (os.cpu_count() or 4))
     ap.add_argument("--keep", action="store_true")
+    ap.add_argument("--cube", default=None, help="dev: only cubes matching k=v,k=v")
     ap.add_argument("--no-evidence", action="store_true")
     ap.add_argument("--timeout-scale", type=float, default=float(os.environ.get("VERIF_TIMEOUT_SCALE", "1")))
     args = ap.parse_args(argv)
@@ -231,8 +232,11 @@ def main(argv=None):
     shutil.rmtree(outdir, ignore_errors=True)
     os.makedirs(outdir, exist_ok=True)
     jobs = []
+    want = dict(kv.split("=") for kv in args.cube.split(",")) if args.cube else {}
     for h in hs:
         for idx, cube in enumerate(h.cube_points(tier)):
+            if any(str(cube.get(k)) != v for k, v in want.items()):
+                continue
             jobs.append(dict(h=h, cube=cube, idx=idx, extra_pre=[], spurious=0))
     rnd = random.Random(seed)
     rnd.shuffle(jobs)
@@ -340,7 +344,7 @@ def main(argv=None):
         else:
             d["errors"] += 1
             exhaustive = False
-            harness_errors.append("%s: %s %s" % (res.get("job"), v, res.get("messages")))
+            harness_errors.append("%s: %s ...%s" % (res.get("job"), v, str(res.get("messages"))[-900:]))
         if len(samples) < 12 and (j["idx"] % 7 == 0 or v != "CONFIRMED"):
             samples.append(dict(harness=h.name, cube=j["cube"], bounds=h.tier_bounds(tier), pre=h.pre + j["extra_pre"],
                                 symbolic=[p.name + ":" + ann(p) for p in h.free_params(tier)],
@@ -375,13 +379,13 @@ def main(argv=None):
     for x in inconclusive:
         log("INCONCLUSIVE harness=%s (budget exhausted before the path tree)" % x)
     for x in harness_errors:
-        log("HARNESS-ERROR:", str(x)[:1500])
+        log("HARNESS-ERROR:", str(x)[:1200])
     for ln in vio_lines:
         log(ln)
     log("%s tier=%s harnesses=%d jobs=%d paths=%d z3_queries=%d z3_s=%.1f wall=%.1fs exhaustive=%s violations=%d" % (
         prop, tier, len(hs), len(jobs), total_paths, total_q, total_z3, wall, exhaustive, len(vio_lines)))
 
-    if not args.no_evidence and not args.only:
+    if not args.no_evidence and not args.only and not args.cube:
         ev = dict(
             property_id=prop, tier=tier, seed=seed, level="model_checking",
             coverage=dict(
